@@ -196,7 +196,7 @@ static const char* const KEYS9[] = {"xx", "xy", "xz", "yx", "yy", "yz", "zx", "z
 template <class T>
 static std::vector<std::array<T, 9>> value_sets() {
   // per-slot distinct values spread over the notation intervals of PhQ::Print
-  const long double base[] = {0.000123456L, -12.5L, 98765.4321L, 1.0L / 3, -0.0625L, 1e-30L, 7.0L, 1234.5L, -1e10L, 0.00999L, 0.0L, -999.9995L, 10000.0L, 0.1L, 3e20L, -4.5e-7L, 2.0L, 65536.0L};
+  const long double base[] = {0.000123456L, -12.5L, 98765.4321L, 1.0L / 3, -0.0625L, 1e-30L, 7.0L, 1234.5L, -1e10L, 0.00999L, -0.0L, -999.9995L, 10000.0L, 0.1L, 3e20L, -4.5e-7L, 2.0L, 65536.0L};
   std::vector<std::array<T, 9>> out;
   for (int r = 0; r < 2; r++) {
     std::array<T, 9> a;
